@@ -197,6 +197,19 @@ def corpus(ctx):
     a[1, 1, 2] = 2      # face contact with a different label
     for b in (None, "cc3d", "scipy"):
         one_case(ctx, a, a.copy(), b, "corpus.3d-contacts")
+    # class values whose sum over the map is a multiple of 2^64 (four voxels of 2^62; two of 2^62 and four of 2^61): the map is not empty
+    for dt in (np.uint64, np.int64):
+        big = np.zeros((3, 6), dt)
+        big[0, 0] = big[0, 2] = big[2, 1] = big[2, 4] = 2 ** 62
+        mixed = np.zeros((3, 6), dt)
+        mixed[0, 0] = mixed[0, 1] = 2 ** 62
+        mixed[2, 0] = mixed[2, 2] = mixed[2, 4] = mixed[1, 5] = 2 ** 61
+        other = np.zeros((3, 6), dt)
+        other[1, 2:4] = 3
+        for b in (None, "cc3d", "scipy"):
+            ctx.count("class_values_summing_to_a_multiple_of_2^64")
+            one_case(ctx, big, other, b, "corpus.wrapping-sum")
+            one_case(ctx, other, mixed, b, "corpus.wrapping-sum")
     r = np.zeros((4, 4), np.uint16)
     r[0, 0] = 1
     r[0, 1] = 256
